@@ -602,3 +602,46 @@ func identTP(a, b types.Type) bool {
 	}
 	return false
 }
+
+// splitAnd flattens a top-level conjunction "(and a b ...)" (recursively) into its conjuncts.
+func splitAnd(t Term) []Term {
+	s := strings.TrimSpace(string(t))
+	if !strings.HasPrefix(s, "(and ") || !strings.HasSuffix(s, ")") {
+		return []Term{t}
+	}
+	body := s[5 : len(s)-1]
+	var parts []string
+	depth, start := 0, 0
+	inBar := false
+	for i := 0; i < len(body); i++ {
+		c := body[i]
+		switch {
+		case c == '|':
+			inBar = !inBar
+		case inBar:
+		case c == '(':
+			depth++
+		case c == ')':
+			depth--
+			if depth < 0 {
+				return []Term{t} // the outer parens did not belong to one "and"
+			}
+		case (c == ' ' || c == '\n') && depth == 0:
+			if i > start {
+				parts = append(parts, body[start:i])
+			}
+			start = i + 1
+		}
+	}
+	if start < len(body) {
+		parts = append(parts, body[start:])
+	}
+	if depth != 0 || len(parts) == 0 {
+		return []Term{t}
+	}
+	var out []Term
+	for _, p := range parts {
+		out = append(out, splitAnd(Term(p))...)
+	}
+	return out
+}
